@@ -810,6 +810,76 @@ fn gen_kernel_cases(k: &mut KRun, thorough: bool) {
             }
         }
     }
+    // ---- run_string_push: padding to a minimum width (scripts) -------------------------------------------
+    {
+        // fill "*" / " " never occurs in the values: the pad counts are read off the result
+        let count = |v: &KValue, fill: char| -> String {
+            match v {
+                KValue::Str(s) => {
+                    let s = s.as_str();
+                    let l = s.chars().take_while(|c| *c == fill).count();
+                    let r = if l == s.chars().count() { 0 } else { s.chars().rev().take_while(|c| *c == fill).count() };
+                    format!("{} {}", l, r)
+                }
+                _ => "-1 -1".into(),
+            }
+        };
+        for (v, g, b) in WIDTH_VALUES.iter().filter(|(_, g, b)| *b > 0 || *g > 0) {
+            let is_num = v.parse::<f64>().is_ok();
+            let mut widths: Vec<usize> = vec![0, 1, g.saturating_sub(1), *g, g + 1, g + 2, g + 3, b.saturating_sub(1), *b, b + 1, b + 2, 2 * b + 1, 40, 255, 256, 257];
+            if thorough {
+                widths.extend(0..=24);
+                widths.extend([1000, 65_535, 65_536]);
+            }
+            widths.sort();
+            widths.dedup();
+            for &w in &widths {
+                for (al, code) in [("", if is_num { "dn" } else { "ds" }), ("<", "l"), ("^", "c"), (">", "r")] {
+                    let (spec, fill) = if al.is_empty() { (format!("{}", w), ' ') } else { (format!("*{}{}", al, w), '*') };
+                    let src = format!("od =\n  @display: || '\u{65e5}\u{672c}'\nv = {}\n'{{v:{}}}'\n", v, spec);
+                    let imp = script_outcome(&src, |r| count(r, fill));
+                    k.add(format!("pad {} {} {} {}", g, b, w, code), imp, src);
+                }
+            }
+        }
+    }
+    // ---- unpack_packed_arguments: the u8 argument count (scripts) ----------------------------------------
+    {
+        let lens: Vec<usize> = if thorough {
+            vec![0, 1, 2, 3, 50, 100, 125, 126, 127, 128, 129, 150, 200, 248, 249, 250, 251, 252, 253, 254, 255, 256, 257, 300, 511, 512]
+        } else {
+            vec![0, 1, 2, 100, 126, 127, 128, 200, 250, 251, 252, 253, 254, 255, 256, 300]
+        };
+        let mut combos: Vec<(usize, Vec<usize>)> = vec![];
+        for &a in &lens {
+            for plain in 0..=2usize {
+                combos.push((plain, vec![a]));
+            }
+            for &b in &lens {
+                for plain in [0usize, 1, 3] {
+                    if plain == 0 || thorough || (a + b) % 2 == 0 {
+                        combos.push((plain, vec![a, b]));
+                    }
+                }
+            }
+        }
+        for (a, b, c) in [(100, 100, 50), (100, 100, 52), (100, 100, 53), (100, 100, 54), (100, 100, 60), (84, 85, 84), (85, 85, 85), (0, 0, 253), (0, 0, 254), (1, 0, 253), (253, 0, 0), (254, 0, 0), (200, 200, 200), (250, 1, 1), (250, 2, 1), (250, 2, 2)] {
+            combos.push((0, vec![a, b, c]));
+            combos.push((2, vec![a, b, c]));
+        }
+        for (a, b, c, d) in [(60, 60, 60, 60), (63, 63, 63, 63), (63, 63, 63, 64), (64, 64, 64, 64), (0, 0, 0, 253), (0, 0, 0, 254), (100, 100, 100, 100), (250, 1, 1, 1)] {
+            combos.push((0, vec![a, b, c, d]));
+            combos.push((1, vec![a, b, c, d]));
+        }
+        for (plain, ls) in combos {
+            let mut args: Vec<String> = (0..plain).map(|i| i.to_string()).collect();
+            args.extend(ls.iter().map(|l| format!("(0..{})...", l)));
+            let src = format!("f = |args...| size args\nf({})\n", args.join(", "));
+            let imp = script_outcome(&src, |r| as_i64(r).map(|i| i.to_string()).unwrap_or("?".into()));
+            let req = format!("unpack {} {}", plain + ls.len(), ls.iter().map(|l| l.to_string()).collect::<Vec<_>>().join(" "));
+            k.add(req, imp, src);
+        }
+    }
     // ---- ExecutionTimeout (hook H4, direct) -------------------------------------------------------------
     for (secs, label) in [(0u64, "0"), (1, "1"), (1u64 << 40, "2^40"), (1u64 << 62, "2^62"), (u64::MAX, "u64::MAX")] {
         let imp = caught(|| koto_runtime::verif_timeout_probe(Duration::from_secs(secs), 1, 0).len());
